@@ -117,6 +117,7 @@ def gen_spec(rng, slot_index, swarm):
         span_days = rng.choice([8, 12, 20])
     clustered = rng.random() < 0.4
     centres = [rng.random() for _ in range(rng.choice([1, 2, 3]))]
+    nmag = rng.choice([1, 1, 1, 0.001, 0.01, 100])  # numeric data of different magnitudes (tick labels need other decimals)
     pool = swarm.get("pool")
     use_pool = pool is not None and kind in ("dt", "d", "n") and rng.random() < 0.7
     both_ends = use_pool and rng.random() < (0.8 if kind == "n" else 0.5)
@@ -135,7 +136,7 @@ def gen_spec(rng, slot_index, swarm):
             elif rng.random() < 0.8:
                 u = rng.choice(pool["u"])
             if kind == "n":
-                it["time"] = ["n", int(u * 1000)]
+                it["time"] = ["n", int(u * 1000) * nmag]
             else:
                 t = base + datetime.timedelta(seconds=int(u * span_days * 86400))
                 it["time"] = ["dt", t.isoformat()] if kind == "dt" else ["d", t.date().isoformat()]
@@ -148,7 +149,7 @@ def gen_spec(rng, slot_index, swarm):
         if use_pool:
             pass
         elif kind == "n":
-            it["time"] = ["n", (int(u * 1000) if rng.random() < 0.7 else int(u * 4000) / 4.0) + 100 * slot_index]
+            it["time"] = ["n", ((int(u * 1000) if rng.random() < 0.7 else int(u * 4000) / 4.0) + 100 * slot_index) * nmag]
         else:
             t = base + datetime.timedelta(seconds=int(u * span_days * 86400))
             if kind == "dt":
@@ -213,7 +214,7 @@ def gen_spec(rng, slot_index, swarm):
         b = base + datetime.timedelta(days=span_days + rng.randrange(1, 60))
         opts["domain"] = [["dt", a.isoformat()], ["dt", b.isoformat()]]
     elif rng.random() < 0.2 and kind == "n":
-        opts["domain"] = [["n", 0], ["n", 1500]]
+        opts["domain"] = [["n", 0], ["n", 1500 * nmag]]
     for ck in ("dotColor", "labelBgColor", "linkColor", "labelTextColor"):
         if rng.random() < 0.2:
             opts[ck] = rng.choice(["#000000", "#abc", {"$palette": 0}, {"$fn": "by_width"}, {"$fn": "by_text"}])
